@@ -362,3 +362,30 @@ int disp_bind(disp_t *d, void *entry)
         return 0;
 }
 void disp_rearm(disp_t *d) { *d->slot = d->initial; }
+
+static disp_t *all_disp;
+static void all_disp_init(void)
+{
+        if (all_disp) return;
+        all_disp = calloc((size_t) isal_dispatch_n, sizeof *all_disp);
+        for (int i = 0; i < isal_dispatch_n; i++)
+                if (disp_bind(&all_disp[i], isal_dispatch_entries[i].entry)) out_err("cannot decode dispatch stub of %s", isal_dispatch_entries[i].name);
+}
+void disp_rearm_all(void)
+{
+        all_disp_init();
+        for (int i = 0; i < isal_dispatch_n; i++) disp_rearm(&all_disp[i]);
+}
+void force_vcpu(const char *name)
+{
+        if (vcpu_set(name)) out_err("unknown virtual cpu %s", name);
+        disp_rearm_all();
+}
+static disp_t *find_disp(void *entry)
+{
+        all_disp_init();
+        for (int i = 0; i < isal_dispatch_n; i++) if (all_disp[i].entry == entry) return &all_disp[i];
+        out_err("entry %p is not a dispatched entry point", entry);
+}
+void *disp_target_of(void *entry) { return disp_target(find_disp(entry)); }
+int disp_is_resolved(void *entry) { disp_t *d = find_disp(entry); return *d->slot != d->initial; }
